@@ -134,3 +134,31 @@ class ScriptedSocket(socket.socket):
 
     def pending_bytes(self):
         return b"".join(e for e in self.events if isinstance(e, (bytes, bytearray)))
+
+
+import io  # noqa: E402
+
+
+class BudgetBytesIO(io.BytesIO):
+    """a plain in-memory file that counts calls: more than len(data) + slack read calls can only mean a loop
+    that makes no progress (deterministic stand-in for a wall-clock watchdog)"""
+
+    def __init__(self, data, slack=64):
+        super().__init__(data)
+        self._calls = 0
+        self._budget = len(data) + slack
+
+    def _tick(self):
+        self._calls += 1
+        if self._calls > self._budget:
+            if self._calls > 2 * self._budget + 64:
+                raise HardStop()
+            raise Fail("non-termination", f"file stream read {self._calls} times for {self._budget - 64} bytes")
+
+    def read(self, *a):
+        self._tick()
+        return super().read(*a)
+
+    def readline(self, *a):
+        self._tick()
+        return super().readline(*a)
